@@ -1,6 +1,6 @@
 """C19 -- name fields: Shift-JIS up to the first NUL; exact normalisation"""
 import random, re
-from .. import core, run as R
+from .. import core, run as R, synth
 from .common import both
 
 ID = 'C19'
@@ -93,5 +93,31 @@ def run(ctx):
             if (a or ['?'])[0] != exp1:
                 corr.oracle_failures.append(('a%d' % i, 'single byte %02x decodes to %s, expected %s' % (x, a, exp1), {'mode': 'sjis', 'fields': [s.hex()], 'got': a}))
     corr.count('sjis_cases', len(cases)); corr.count('sjis_outside_executable_model', unmod)
+    # ---- the name FIELDS of a Game Start block (name tag 16 bytes, display name 31, connect code 10): filled to the last byte without a NUL,
+    # with a NUL at every position, and with half-width katakana; the whole block goes through the real reader and the model
+    from .readerlib import both_modes
+    fcases = []
+    kana = bytes(range(0xa1, 0xe0))
+    for i in range(40 if thorough else 12):
+        r = synth.gen_wf(rng, rng.choice([(3, 9), (3, 12), (3, 16)]), nframes=0, gecko=0)
+        b = bytearray(synth.emit(r))
+        so = b.index(bytes([0x36]), 15) + 1            # start block follows the first 0x36 after the payload table
+        so = 15 + 2 + 3 * len(synth.payload_table(r)) + 1
+        def fill(off, n, k):
+            src = kana if i % 3 == 2 else b'ABCDEFGHIJKLMNOPQRSTUVWXYZabcdefghijklmnopqrstuvwxyz0123456789#'
+            body = bytes(rng.choice(src) for _ in range(n))
+            if k < n: body = body[:k] + b'\0' + bytes(rng.randrange(256) for _ in range(n - k - 1))
+            b[so + off:so + off + n] = body
+        for p_ in range(4):
+            fill(352 + 16 * p_, 16, rng.choice([16, 16, 15, 0, rng.randrange(17)]))      # name tags (v1.3)
+            fill(420 + 31 * p_, 31, rng.choice([31, 31, 30, 0, rng.randrange(32)]))      # display names (v3.9)
+            fill(544 + 10 * p_, 10, rng.choice([10, 10, 9, 0, rng.randrange(11)]))       # connect codes (v3.9)
+        fcases.append(('f%d' % i, [bytes(b).hex(), '-', '-', '-']))
+    fimpl, fmodel = both_modes(ctx, 'read', fcases, corr, parallel=8)
+    for cid, f in fcases:
+        corr.seen(f[0]); corr.count('start_block_name_fields')
+        if (fimpl.get(cid) or ['?'])[0] != 'OK':
+            corr.oracle_failures.append((cid, 'a Game Start block with full-length / NUL-terminated ASCII or katakana names is rejected: %s' % (fimpl.get(cid) or ['?'])[:2],
+                                         {'mode': 'read', 'fields': f, 'replay_hex': f[0]}))
     corr.sample({'sjis': cases[5]}); corr.sample({'sjis': cases[-4]}); corr.sample({'norm': ncases[15]})
     return corr
